@@ -7,6 +7,7 @@ EXPLAIN = ("bounded symbolic execution of the real pams code: the harness runs t
 
 CHECKS = {
     "C01": {"harnesses": [("harness.matching", "C01_ClearingRound"), ("harness.matching", "C01_Continuous")]},
-    "C02": {"harnesses": [("harness.matching", "C02_ClearingRound"), ("harness.matching", "C02_Continuous")]},
+    "C02": {"harnesses": [("harness.priority", "C02_OrderLaws"), ("harness.priority", "C02_HeapMaintenance"),
+                          ("harness.matching", "C02_ClearingRound"), ("harness.matching", "C02_Continuous")]},
     "C03": {"harnesses": [("harness.matching", "C03_ClearingRound"), ("harness.matching", "C03_Continuous")]},
 }
